@@ -350,6 +350,12 @@ struct SCase {
     /// the records are logged by a second thread while this one calls flush(); after the join
     /// flush() is called again and the output is read (instead of the terminal operation)
     flush_race: bool,
+    /// with flush_race: the racing call is shutdown() instead of flush()
+    race_shutdown: bool,
+    /// the state mutex is not modelled from its hooks: threads really block on it
+    unmodelled_state_lock: bool,
+    /// the directly used FileLogWriter is flushed (and read back) before the terminal operation
+    flush_first: bool,
 }
 fn sched_cases() -> Vec<SCase> {
     let c = |name, mode, out, writes, term, second_shutdown, tick_budget, real_blocking| SCase {
@@ -362,6 +368,9 @@ fn sched_cases() -> Vec<SCase> {
         tick_budget,
         real_blocking,
         flush_race: false,
+        race_shutdown: false,
+        unmodelled_state_lock: false,
+        flush_first: false,
     };
     let mut v = vec![
         c("async-file/shutdown", ModeK::Async(1, 16, 0), OutK::File, 3, Term::Shutdown, false, 0, false),
@@ -387,15 +396,45 @@ fn sched_cases() -> Vec<SCase> {
         x.flush_race = true;
         v.push(x);
     }
+    // the same races with the state mutex un-modelled (a try_lock in place of lock is then not
+    // masked by the model), and with shutdown() as the racing call
+    for (name, race_shutdown) in [("buffered-file/flush-vs-write/unmodelled-state-lock", false), ("buffered-file/shutdown-vs-write/unmodelled-state-lock", true), ("buffered-file/shutdown-vs-write", true)] {
+        let mut x = c(name, ModeK::BufDont(CAP), OutK::File, 1, Term::Shutdown, false, 0, false);
+        x.flush_race = true;
+        x.race_shutdown = race_shutdown;
+        x.unmodelled_state_lock = name.ends_with("unmodelled-state-lock");
+        x.real_blocking = x.unmodelled_state_lock;
+        v.push(x);
+    }
+    // the directly used FileLogWriter: flush() first, then the terminal operation
+    {
+        let mut x = c("flw-direct/buffered+file-flusher/flush-then-drop", ModeK::BufFlush(CAP, 1), OutK::File, 3, Term::DropLast, false, 2, false);
+        x.flush_first = true;
+        v.push(x);
+    }
+    v.push(c("flw-direct/buffered+file-flusher-rotation/drop", ModeK::BufFlush(CAP, 1), OutK::File, 2, Term::DropLast, false, 2, false));
+    // the flusher thread of a rotating file: it flushes, it does not rotate
+    // (two records: the second one takes the file over the limit, then nothing more is logged)
+    v.push(c("buffered-flusher-file-rotation/shutdown", ModeK::BufFlush(CAP, 1), OutK::FileNum, 2, Term::Shutdown, false, 2, false));
     v
 }
 
 fn sched_cfg(sc: &SCase) -> SchedCfg {
+    let mut ignore = vec!["flw_pool_pop", "flw_pool_push", "std_pool_pop", "std_pool_push", "set_max_level", "open", "rename", "cleanup_list", "symlink_remove", "symlink_create", "std_lock"];
+    if sc.flush_race {
+        // (the acquisition of the stream lock is a scheduling point in the races: a flag that is
+        // raised before the lock is taken and lowered by the flush is otherwise invisible)
+        ignore.retain(|n| *n != "std_lock");
+    }
+    let mut nonblocking_locks = if sc.real_blocking { vec!["flw_join", "std_join"] } else { vec![] };
+    if sc.unmodelled_state_lock {
+        nonblocking_locks.push("flw_state");
+    }
     SchedCfg {
-        ignore: vec!["flw_pool_pop", "flw_pool_push", "std_pool_pop", "std_pool_push", "set_max_level", "open", "rename", "cleanup_list", "symlink_remove", "symlink_create", "std_lock"],
+        ignore,
         tick_budget: sc.tick_budget,
         detect_real_blocking: sc.real_blocking,
-        nonblocking_locks: if sc.real_blocking { vec!["flw_join", "std_join"] } else { vec![] },
+        nonblocking_locks,
         ..SchedCfg::default()
     }
 }
@@ -408,7 +447,7 @@ fn flw_direct_body(sc: SCase) -> Arc<dyn Fn(&Arc<Sched>) -> SObs + Send + Sync> 
     use flexi_logger::writers::LogWriter;
     Arc::new(move |_s: &Arc<Sched>| {
         let env = Env::in_current("c04f");
-        let mut cfg = Cfg::norot();
+        let mut cfg = if sc.name.contains("rotation") { Cfg::rot(CritK::Size(40), NamingK::Numbers, CleanK::Never) } else { Cfg::norot() };
         cfg.mode = sc.mode;
         let flw = cfg.flw_builder(&env.dir).try_build().map_err(|e| ("build-error".to_string(), e.to_string()))?;
         let mut accepted: Vec<u8> = Vec::new();
@@ -424,7 +463,7 @@ fn flw_direct_body(sc: SCase) -> Arc<dyn Fn(&Arc<Sched>) -> SObs + Send + Sync> 
         }
         // flush() of the writer itself: when it returns, everything is in the file (synchronous
         // modes; the writer's own flusher thread may or may not have run meanwhile)
-        if !sc.mode.is_async() {
+        if sc.flush_first && !sc.mode.is_async() {
             flw.flush().map_err(|e| ("flush-error".to_string(), e.to_string()))?;
             let got = std::fs::read(env.dir.join("app.log")).unwrap_or_default();
             if got != accepted {
@@ -436,6 +475,20 @@ fn flw_direct_body(sc: SCase) -> Arc<dyn Fn(&Arc<Sched>) -> SObs + Send + Sync> 
             Term::DropLast | Term::DropLastUnwinding => {}
         }
         drop(flw);
+        if sc.name.contains("rotation") {
+            // the flusher thread flushes, it does not rotate: a rotation happens when a record is
+            // about to be written, so no file is left empty
+            let names = crate::family::list_names(&env.dir);
+            let empty: Vec<&String> = names.iter().filter(|n| std::fs::metadata(env.dir.join(n)).is_ok_and(|m| m.is_file() && m.len() == 0)).collect();
+            let total: usize = names.iter().map(|n| std::fs::read(env.dir.join(n)).map_or(0, |b| b.len())).sum();
+            return if !empty.is_empty() {
+                Err(("rotated-without-a-record".to_string(), format!("empty files {empty:?} after the FileLogWriter was dropped: a rotation took place although no record was about to be written")))
+            } else if total != accepted.len() {
+                Err(("missing-after-drop".to_string(), format!("FileLogWriter dropped: the files {names:?} hold {total} bytes, written were {}", accepted.len())))
+            } else {
+                Ok(())
+            };
+        }
         let got = std::fs::read(env.dir.join("app.log")).unwrap_or_default();
         if got != accepted {
             return Err(("missing-after-drop".to_string(), format!("FileLogWriter dropped: the file holds {:?}, written were {:?}", String::from_utf8_lossy(&got), String::from_utf8_lossy(&accepted))));
@@ -460,6 +513,16 @@ fn sched_body(sc: SCase) -> Arc<dyn Fn(&Arc<Sched>) -> SObs + Send + Sync> {
                 line.push(b'\n');
                 accepted.push(line);
             }
+            // one record of this thread first: its log call has completed before the racing call
+            // begins, so it must be in the output as soon as that call returns
+            let first = {
+                let msg = lg::payload(9, 0, 6);
+                lg::log_info(&**logger, &msg);
+                let mut line = msg.into_bytes();
+                line.push(b'\n');
+                line
+            };
+            accepted.insert(0, first.clone());
             let l2 = Arc::clone(&logger);
             let n = sc.writes;
             let jh = s.spawn("writer", move || {
@@ -470,8 +533,25 @@ fn sched_body(sc: SCase) -> Arc<dyn Fn(&Arc<Sched>) -> SObs + Send + Sync> {
             // (a scheduling point of the harness itself: flush() may begin at any moment of the
             // other thread's log calls, also when flush() has no hook of its own on its path)
             s.sync_op(flexi_logger::verif_hooks::Op::Point("harness_before_flush"));
-            handle.flush();
+            if sc.race_shutdown {
+                handle.shutdown();
+            } else {
+                handle.flush();
+            }
+            let early = w.read().unwrap_or_default();
+            if !early.windows(first.len()).any(|x| x == first.as_slice()) {
+                s.join(jh);
+                return Err(("missing-after-flush".to_string(), format!("a record whose log call had completed before {}() was called is not in the output when that call returned (another thread was logging meanwhile); output {:?}", if sc.race_shutdown { "shutdown" } else { "flush" }, String::from_utf8_lossy(&early))));
+            }
             s.join(jh);
+            if sc.race_shutdown {
+                // (what the other thread logged after the shutdown is not promised to anybody)
+                drop(logger);
+                if let Ok(w) = Arc::try_unwrap(w) {
+                    w.close();
+                }
+                return Ok(());
+            }
             // every log call has completed: after this flush the records must be in the output
             handle.flush();
             let res = expect_all(&w, &accepted, "missing-after-flush", "when flush() returned (all log calls had completed; an earlier flush() ran concurrently with them)").map_err(|f| (f.clause.to_string(), f.detail));
@@ -518,6 +598,13 @@ fn sched_body(sc: SCase) -> Arc<dyn Fn(&Arc<Sched>) -> SObs + Send + Sync> {
         };
         if let Err(f) = expect_all(&w, &accepted, clause, when) {
             res = Err((f.clause.to_string(), f.detail));
+        }
+        // a rotation happens when a record is about to be written: no file is left empty
+        if res.is_ok() && matches!(sc.out, OutK::FileNum | OutK::FileTsD) {
+            let empty: Vec<String> = crate::family::list_names(&w.env.dir).into_iter().filter(|n| std::fs::metadata(w.env.dir.join(n)).is_ok_and(|m| m.is_file() && m.len() == 0)).collect();
+            if !empty.is_empty() {
+                res = Err(("rotated-without-a-record".to_string(), format!("empty files {empty:?} {when}: a rotation took place although no record was about to be written")));
+            }
         }
         if let Some((jh, slot)) = second {
             s.join(jh);
